@@ -67,7 +67,7 @@ func inStore(store []h.CertRef, c h.CertRef) bool {
 // resolve implements the property's rule for which certificate is consulted.
 func (c *C02Case) resolve() *h.CertRef {
 	switch c.KeyInfo {
-	case "own", "other", "attacker":
+	case "own", "other", "attacker", "lookalike":
 		return c.Embedded
 	case "absent":
 		if len(c.SP.Store) == 1 {
@@ -124,7 +124,12 @@ func genC02(t *rapid.T) C02Case {
 		// ... or a certificate whose keyUsage lacks digitalSignature (an "encryption" certificate in the trust store)
 		c.Signer.Window = rapid.SampledFrom([]string{"wide-ski", "wide-ski2", "wide-enc"}).Draw(t, "skiWindow")
 	}
-	c.KeyInfo = rapid.SampledFrom([]string{"own", "own", "own", "other", "attacker", "absent", "absent", "empty"}).Draw(t, "keyInfo")
+	c.KeyInfo = rapid.SampledFrom([]string{"own", "own", "own", "other", "attacker", "absent", "absent", "empty", "lookalike"}).Draw(t, "keyInfo")
+	if c.KeyInfo == "lookalike" {
+		// signed with the attacker's key; the embedded certificate (over that key) copies subject and
+		// SubjectKeyIdentifier / serial number of a certificate that IS in the store
+		c.Signer = h.CertRef{Key: "A", Window: "wide"}
+	}
 	c.Tamper = rapid.SampledFrom([]string{"none", "none", "none", "none", "none", "content", "digest", "sigvalue", "extra-ref-first", "extra-ref-last"}).Draw(t, "tamper")
 	c.ClockPos = rapid.SampledFrom(clockPositions).Draw(t, "clockPos")
 	c.Method = methodFor(c.Signer.Key, rapid.IntRange(0, 3).Draw(t, "method"))
@@ -150,6 +155,13 @@ func genC02(t *rapid.T) C02Case {
 	if len(store) > 1 {
 		store = rapid.Permutation(store).Draw(t, "storeOrder")
 	}
+	if c.KeyInfo == "lookalike" {
+		for _, tr := range []h.CertRef{{Key: "T1", Window: "wide-ski"}, {Key: "T2", Window: "wide-ski"}, {Key: "T1", Window: "wide"}} {
+			if !inStore(store, tr) {
+				store = append(store, tr)
+			}
+		}
+	}
 	c.SP.Store = store
 	finishC02(&c, rapid.IntRange(0, 1000).Draw(t, "pick"), func(err error) { t.Fatalf("harness: %v", err) })
 	return c
@@ -166,6 +178,9 @@ func finishC02(c *C02Case, pick int, fail func(error)) {
 	switch c.KeyInfo {
 	case "own":
 		e := c.Signer
+		c.Embedded = &e
+	case "lookalike":
+		e := h.CertRef{Key: "A", Window: []string{"like-T1ski", "like-T2ski", "like-T1"}[pick%3]}
 		c.Embedded = &e
 	case "attacker":
 		e := h.CertRef{Key: "A", Window: "wide"}
